@@ -12,8 +12,8 @@ META = {
 
 S = portcheck.make(
     "C09", "Port.OracleC09",
-    [("c09", "debug", 400, 8000), ("c09", "release", 150, 3000), ("mix", "debug", 150, 3000)],
-    rule="port 0 is made slave of a master, then Sync (one/two-step), Follow_Up, Delay_Req timer, transmit timestamps and Delay_Resp are delivered with duplication, re-ordering (Follow_Up first), omission, stale/advanced sequence ids, wrong requester, another master, parent take-over; class = outcome : number of measurements (capped 9) : kinds exercised : port states; cases with m0 (no measurement) are trivial",
+    [("c09", "debug", 400, 8000), ("c09", "release", 150, 3000), ("mix", "debug", 150, 3000), ("warmdr", "debug", 6, 32), ("warmdr", "release", 2, 16)],
+    rule="port 0 is made slave of a master, then Sync (one/two-step), Follow_Up, Delay_Req timer, transmit timestamps and Delay_Resp are delivered with duplication, re-ordering (Follow_Up first), omission, stale/advanced sequence ids, wrong requester, another master (sometimes another PORT of the parent's clock), parent take-over; warmdr = 65533+ Delay_Req timers unobserved (the model iterates step), then the same mix while the Delay_Req sequence id wraps, with transmit timestamps of the request before the wrap arriving after the request after it (case type Port/WarmCases.v, judged by ok_warm_C09); class = outcome : number of measurements (capped 9) : kinds exercised : port states; cases with m0 (no measurement) are trivial",
     trivial=("c09:ok:m0",),
 )
 
